@@ -137,9 +137,14 @@ def obligations(tier, seed):
                 sub.append(f"'# {c}': v_{c}")
         holes1 = "{" + ", ".join(f"{h.src_token()!r}: {h.src_value()}" for h in holes) + "}"
         defs = f"\nTEXT = {text!r}\n"
-        lcexp = _structure(text)
         vmap = "{" + ", ".join(f"{c!r}: v_{c}" for c in coms) + "}"
-        src = PRELUDE + defs + harness("h", params, conj(pre), BODY.format(BUILD="\n".join(build), HOLES=holes1, SUB="{" + ", ".join(sub) + "}", VMAP=vmap, LCEXP=lcexp))
+        try:
+            lcexp = _structure(text)
+            src = PRELUDE + defs + harness("h", params, conj(pre), BODY.format(BUILD="\n".join(build), HOLES=holes1, SUB="{" + ", ".join(sub) + "}", VMAP=vmap, LCEXP=lcexp))
+        except Exception:
+            # the witness itself fails with bookkeeping on: the obligation is that call
+            from checks.tsp_common import failing_witness_source
+            src = failing_witness_source(text, {"include_comments": True, "include_position": True})
         obs.append(Ob(name=f"C13-REL/{name}", source=src, pct=900, timeout=1000,
                       meta={"desc": f"skeleton {name}: plain / position / comments / both agree modulo hidden keys; prints agree modulo comment text",
                             "functions": ["Parser.parse", "CommentsTransformer", "MapfileTransformer", "PrettyPrinter._format"], "stubs": ["hole lexer", "comment substitution"]}))
